@@ -107,6 +107,8 @@ def run_oracle(b):
     if b.get("conflicts"):
         a, c, s = b["conflicts"][0].split(":")
         return "tasks %s and %s run at the same time and both touch subgrid %s" % (tname(b, int(a)), tname(b, int(c)), s)
+    if res[0] == "watchdog":
+        return "the REAL worker loop on real threads does not terminate (killed by the watchdog after 8 s)"
     if res[0] == "hang":
         left = [t for t in range(n) if t not in started]
         return ("the hydro step never terminates: %d tasks never start, number_of_tasks stays %s; Task::lock_dependency fails with all locks free for tasks %s"
@@ -165,11 +167,32 @@ def requests(ck):
     return reqs
 
 
+def extract_loop(ck):
+    """copy the source lines of the hydro worker loop (queue filling + `#pragma omp parallel` block) out of do_simulation"""
+    src = open(os.path.join(vf.REPO, "src", "TaskBasedRadiationHydrodynamicsSimulation.cpp")).read().split("\n")
+    ws = [i for i, l in enumerate(src) if "while (number_of_tasks.value() > 0)" in l]
+    if len(ws) != 1:
+        return None
+    w = ws[0]
+    a = max([i for i in range(w) if "AtomicValue< uint_fast32_t > number_of_tasks;" in src[i]] or [-1])
+    bs = [i for i in range(w, len(src)) if "stop_parallel_timing_block();" in src[i]]
+    if a < 0 or not bs or w - a > 40 or bs[0] - w > 60:
+        return None
+    text = "\n".join(src[a:bs[0] + 1]) + "\n"
+    if "reset_hydro_tasks" not in text or "#pragma omp parallel" not in text or "execute_task(" not in text:
+        return None
+    open(os.path.join(ck.scratch, "c07_loop.inc"), "w").write(text)
+    return text
+
+
 def build(ck):
     d = ck.scratch
     ok1, log1 = vf.coq_extract("C07", d)
     ok2, log2 = (False, "") if not ok1 else vf.ocaml_build(d, ["c07_model"], DRIVER, "model")
-    ok3, log3 = vf.cxx_build(HARNESS, os.path.join(d, "impl"), libs=True)
+    ck.real_loop = extract_loop(ck) is not None
+    if not ck.real_loop:
+        ck.breaks.append("cannot locate the hydro worker loop (`while (number_of_tasks.value() > 0)`) in do_simulation; the real-thread runs are skipped")
+    ok3, log3 = vf.cxx_build(HARNESS, os.path.join(d, "impl"), libs=True, extra=(["-DC07_REAL_LOOP", "-I" + d] if ck.real_loop else None))
     if not ok3:
         ck.breaks.append("harness does not compile against /repo/src/TaskBasedRadiationHydrodynamicsSimulation.cpp:\n" + log3[-2000:])
     if not (ok1 and ok2):
@@ -178,7 +201,7 @@ def build(ck):
 
 
 def run_impl(ck, reqs, timeout=900):
-    text = "".join("%s %d %d %d %d %d %d %d %d\n" % ((m,) + l + (nt, sd)) if m == "S" else "%s %d %d %d %d %d %d\n" % ((m,) + l) for (m, l, nt, sd) in reqs)
+    text = "".join("%s %d %d %d %d %d %d %d %d\n" % ((m,) + l + (nt, sd)) if m in "ST" else "%s %d %d %d %d %d %d\n" % ((m,) + l) for (m, l, nt, sd) in reqs)
     rc, out = vf.run_lines([os.path.join(ck.scratch, "impl")], text, timeout=timeout)
     return rc, parse_blocks(out)
 
@@ -261,11 +284,34 @@ def run(ck):
                 report(b, why, nt, sd)
         if not sn and (b.get("lockfail") or table_defects(b)):
             suspects.append((b, nt, sd))
+    # --- the REAL worker loop (source lines of do_simulation, included verbatim) on real OpenMP threads
+    t_runs = t_events = 0
+    hang_seen = None
+    if getattr(ck, "real_loop", False):
+        reps = 1 if ck.quick else 4
+        treqs = [("T", l, 2 + ck.rng.below(7), 0) for (m, l, _, _) in reqs if m == "S" and not self_neighbour(l) for _ in range(reps)]
+        rc_t, tblocks = run_impl(ck, treqs, timeout=240 if ck.quick else 900)
+        for (m, l, nt, sd), b in zip(treqs, tblocks):
+            if "result" not in b:
+                continue
+            t_runs += 1
+            t_events += len(b.get("events", []))
+            why = run_oracle(b)
+            if why:
+                report(b, "[real worker loop on %d real threads] %s" % (nt, why), nt, -1)
+        if (rc_t != 0 or len(tblocks) != len(treqs)) and not any(v["replay"].get("seed") == -1 for v in ck.violations):
+            ck.breaks.append("real-thread harness exited with %d after %d of %d runs" % (rc_t, len(tblocks), len(treqs)))
+        if self_witness is not None:
+            lw = self_witness[0]["layout"]
+            rc_h, hb = run_impl(ck, [("T", lw, 4, 0)], timeout=30)
+            hang_seen = bool(hb) and hb[0].get("result", [""])[0] == "watchdog"
+            if not hang_seen:
+                ck.breaks.append("the real worker loop terminated on the self-neighbour layout %s although the model predicts a hang" % (lw,))
     if self_witness is not None:
         b, why, nt, sd = self_witness
         nlay = sum(1 for (m, l, _, _) in reqs if self_neighbour(l))
-        report(b, why + " [defect D2: a periodic axis with exactly one subgrid makes the subgrid its own neighbour; the pair task gets the SAME lock twice; %d of the %d layouts of this run are affected]"
-               % (nlay, len(reqs)), nt, sd, kind="self_neighbour_deadlock")
+        report(b, why + " [defect D2: a periodic axis with exactly one subgrid makes the subgrid its own neighbour; the pair task gets the SAME lock twice; %d of the %d layouts of this run are affected%s]"
+               % (nlay, len(reqs), "; the REAL worker loop on 4 real threads was killed by the watchdog after 8 s" if hang_seen else ""), nt, sd, kind="self_neighbour_deadlock")
 
     # --- model side: diff of the table, wf_check on the real table, replay of the real runs, random schedules
     mism = 0
@@ -359,6 +405,8 @@ def run(ck):
     cov["tasks_compared"] = sum(hist.values())
     cov["self_neighbour_layouts"] = sum(1 for (_, l, _, _) in reqs if self_neighbour(l))
     cov["real_primitive_runs"] = runs
+    cov["real_loop_runs_on_real_threads"] = t_runs
+    cov["real_loop_start_stop_events_checked"] = t_events
     cov["real_run_labels_replayed_through_step"] = labels
     cov["model_schedules_simulated_on_real_tables"] = nsim_total
     cov["model_schedule_steps"] = sim_steps
@@ -382,6 +430,18 @@ def replay(ck, rp):
         return 2
     r = rp["replay"]
     l = tuple(r["layout"])
+    if r.get("seed", 1) == -1:     # found with the real loop on real threads: nondeterministic, try a few times
+        ck.real_loop = extract_loop(ck) is not None
+        vf.cxx_build(HARNESS, os.path.join(ck.scratch, "impl"), libs=True, extra=["-DC07_REAL_LOOP", "-I" + ck.scratch])
+        why = None
+        for k in range(40):
+            rc, blocks = run_impl(ck, [("T", l, max(1, r.get("nthreads", 2)), 0)], timeout=30)
+            b = blocks[0]
+            why = run_oracle(b)
+            if why:
+                break
+        print("REPLAY:", why or "property holds on this input (40 real-thread runs)")
+        return 1 if why else 0
     rc, blocks = run_impl(ck, [("S", l, max(1, r.get("nthreads", 1)), r.get("seed", 1))])
     b = blocks[0]
     why = run_oracle(b)
